@@ -1,5 +1,7 @@
 #!/bin/sh
-# tools/collect.sh <id>: take the seeded changes a round-2 agent left in /tmp/mut2-<id>/_seeded and drop its worktree
-id=$1; wt=/tmp/mut2-$id
-for d in $wt/_seeded/*/; do n=$(basename $d); mkdir -p /verif/seeded/$n; cp $d/patch.diff $d/demo.py $d/meta.json /verif/seeded/$n/ 2>/dev/null; ls /verif/seeded/$n | tr '\n' ' '; echo; done
+# tools/collect.sh <id> [prefix]: take the seeded changes an agent left in /tmp/<prefix>-<id>/_seeded (default prefix mut2)
+# into /verif/seeded and drop its worktree
+id=$1; wt=/tmp/${2:-mut2}-$id
+[ -d $wt/_seeded ] || { echo "no $wt/_seeded"; exit 1; }
+for d in $wt/_seeded/$id-*/; do n=$(basename $d); mkdir -p /verif/seeded/$n; cp $d/patch.diff $d/demo.py $d/meta.json /verif/seeded/$n/ 2>/dev/null; ls /verif/seeded/$n | tr '\n' ' '; echo; done
 git -C /repo worktree remove --force $wt
